@@ -221,20 +221,18 @@ impl Model<Asn<Unresolved>> {
         iter: &mut Peekable<T>,
         delimiter: char,
     ) -> Result<String, ErrorKind> {
-        iter.next_separator_eq_or_err(delimiter)?;
-        let token = iter.next_or_err()?;
-
-        let first_text = token.text().unwrap_or_default();
+        let opening = iter.next_if_separator_and_eq(delimiter)?;
         let mut string = String::from(delimiter);
-        string.push_str(first_text);
-        let mut prev_loc = Location::at(
-            token.location().line(),
-            token.location().column() + first_text.chars().count(),
-        );
+        let mut prev_loc = Location::at(opening.location().line(), opening.location().column() + 1);
 
         loop {
             match iter.next_or_err()? {
-                t if t.eq_separator(delimiter) => break,
+                Token::Separator(loc, char) if char == delimiter => {
+                    for _ in prev_loc.column()..loc.column() {
+                        string.push(' ');
+                    }
+                    break;
+                }
                 Token::Text(loc, str) => {
                     for _ in prev_loc.column()..loc.column() {
                         string.push(' ');
